@@ -244,6 +244,238 @@ theorem kpause_paused_counterexample : endErr 3 ([Op.kPause 0].foldl (apply pr) 
 theorem all_pause_counterexample :
     endErr 3 ([Op.msgPause 0, .msgPause 1, .msgPause 2].foldl (apply pr) s3) = some .emptySet := by decide
 
+/-! ## joining validators: MsgClaimValidator, the pending queue (`Stake.stepC`, `joinPending`, `endBlockC`) -/
+
+/-- accounts without a validator record are outside everything; pending entries belong to such accounts -/
+structure PInv (s : S) : Prop where
+  out : ∀ v, s.claimed v = false → s.status v = .inactive ∧ s.V v = false ∧ s.R v = false ∧ s.A v = false
+  pend : ∀ v, s.P v = true → s.claimed v = false
+
+/-- every operation with a subject changes the status, the queues and the consensus-set bit of its subject only, and
+never the record / pending bookkeeping -/
+theorem step_frame (p : Params) (s s' : S) (op : Op) (v : Nat) (hsub : subject op = some v)
+    (hs : step p s op = some s') :
+    (∀ w, w ≠ v → s'.status w = s.status w ∧ s'.V w = s.V w ∧ s'.R w = s.R w ∧ s'.A w = s.A w) ∧
+    s'.claimed = s.claimed ∧ s'.P = s.P := by
+  cases op with
+  | rankReset => simp [subject] at hsub
+  | msgPause u =>
+    simp only [subject, Option.some.injEq] at hsub; subst hsub
+    simp only [step] at hs
+    split at hs
+    · cases hs
+    · cases hst : s.status u <;> simp [hst] at hs
+      subst hs
+      exact ⟨fun w hw => by simp [demote, upd, hw], rfl, rfl⟩
+  | msgUnpause u =>
+    simp only [subject, Option.some.injEq] at hsub; subst hsub
+    simp only [step] at hs
+    cases hst : s.status u <;> simp [hst] at hs
+    subst hs
+    exact ⟨fun w hw => by simp [promote, upd, hw], rfl, rfl⟩
+  | msgActivate u now =>
+    simp only [subject, Option.some.injEq] at hsub; subst hsub
+    simp only [step] at hs
+    cases hst : s.status u <;> simp [hst] at hs
+    obtain ⟨_, hs⟩ := hs
+    subst hs
+    exact ⟨fun w hw => by simp [promote, upd, hw], rfl, rfl⟩
+  | sig u signed now =>
+    simp only [subject, Option.some.injEq] at hsub; subst hsub
+    simp only [step] at hs
+    cases hst : s.status u with
+    | active =>
+      simp only [hst, Option.some.injEq] at hs
+      subst hs
+      unfold sigActive
+      simp only
+      split
+      · exact ⟨fun w hw => by simp [demote, upd, hw], rfl, rfl⟩
+      · exact ⟨fun w hw => ⟨rfl, rfl, rfl, rfl⟩, rfl, rfl⟩
+    | inactive => simp [hst] at hs; subst hs; exact ⟨fun _ _ => ⟨rfl, rfl, rfl, rfl⟩, rfl, rfl⟩
+    | paused => simp [hst] at hs; subst hs; exact ⟨fun _ _ => ⟨rfl, rfl, rfl, rfl⟩, rfl, rfl⟩
+    | jailed => simp [hst] at hs; subst hs; exact ⟨fun _ _ => ⟨rfl, rfl, rfl, rfl⟩, rfl, rfl⟩
+  | jail u now =>
+    simp only [subject, Option.some.injEq] at hsub; subst hsub
+    simp only [step] at hs
+    cases hst : s.status u <;> simp [hst] at hs <;> subst hs <;>
+      first
+        | exact ⟨fun _ _ => ⟨rfl, rfl, rfl, rfl⟩, rfl, rfl⟩
+        | exact ⟨fun w hw => by simp [demote, upd, hw], rfl, rfl⟩
+  | evidence u now known stale =>
+    simp only [subject, Option.some.injEq] at hsub; subst hsub
+    simp only [step] at hs
+    by_cases hk : known = true ∧ stale = false
+    · rw [if_pos hk] at hs
+      cases hst : s.status u <;> simp [hst] at hs <;> subst hs <;>
+        first
+          | exact ⟨fun _ _ => ⟨rfl, rfl, rfl, rfl⟩, rfl, rfl⟩
+          | exact ⟨fun w hw => by simp [demote, upd, hw], rfl, rfl⟩
+    · rw [if_neg hk] at hs; simp at hs; subst hs; exact ⟨fun _ _ => ⟨rfl, rfl, rfl, rfl⟩, rfl, rfl⟩
+  | unjail u now =>
+    simp only [subject, Option.some.injEq] at hsub; subst hsub
+    simp only [step] at hs
+    cases hst : s.status u <;> cases hj : s.jailTime u <;> simp [hst, hj] at hs
+    obtain ⟨_, hs⟩ := hs
+    subst hs
+    exact ⟨fun w hw => by simp [upd, hw], rfl, rfl⟩
+  | kPause u =>
+    simp only [subject, Option.some.injEq] at hsub; subst hsub
+    simp only [step] at hs
+    cases hst : s.status u <;> simp [hst] at hs <;> subst hs <;>
+      first
+        | exact ⟨fun _ _ => ⟨rfl, rfl, rfl, rfl⟩, rfl, rfl⟩
+        | exact ⟨fun w hw => by simp [demote, upd, hw], rfl, rfl⟩
+
+/-- the operations covered, with the claim message (always covered) -/
+def GoodC (p : Params) (s : S) : OpC → Prop
+  | .claim _ => True
+  | .base op => Good p s op
+
+theorem stepC_sub (p : Params) (s : S) (op : Op) (v : Nat) (hsub : subject op = some v) :
+    stepC p s (.base op) = if s.claimed v then step p s op else if isMsg op then none else some s := by
+  cases op <;> simp_all [stepC, subject]
+
+theorem pinv_of_frame (s s' : S) (v : Nat) (hp : PInv s) (hcl : s.claimed v = true)
+    (hf : ∀ w, w ≠ v → s'.status w = s.status w ∧ s'.V w = s.V w ∧ s'.R w = s.R w ∧ s'.A w = s.A w)
+    (hc : s'.claimed = s.claimed) (hP : s'.P = s.P) : PInv s' := by
+  constructor
+  · intro w hw
+    rw [hc] at hw
+    have hne : w ≠ v := by intro e; subst e; simp [hcl] at hw
+    obtain ⟨a, b, c, d⟩ := hf w hne
+    rw [a, b, c, d]; exact hp.out w hw
+  · intro w hw; rw [hP] at hw; rw [hc]; exact hp.pend w hw
+
+theorem syncC_sub (p : Params) (s s' : S) (op : Op) (v : Nat) (hsub : subject op = some v) (h : Sync s) (hp : PInv s)
+    (hg : Good p s op) (hs : stepC p s (.base op) = some s') : Sync s' ∧ PInv s' := by
+  rw [stepC_sub p s op v hsub] at hs
+  cases hc : s.claimed v with
+  | true =>
+    simp only [hc, if_true] at hs
+    obtain ⟨hf, hcl, hP⟩ := step_frame p s s' op v hsub hs
+    exact ⟨sync_step p s s' op h hg hs, pinv_of_frame s s' v hp hc hf hcl hP⟩
+  | false =>
+    simp only [hc, Bool.false_eq_true, if_false] at hs
+    split at hs
+    · cases hs
+    · cases hs; exact ⟨h, hp⟩
+
+/-- **every covered operation - now including MsgClaimValidator - preserves the invariant and the bookkeeping of
+unclaimed accounts** -/
+theorem syncC_step (p : Params) (s s' : S) (op : OpC) (h : Sync s) (hp : PInv s) (hg : GoodC p s op)
+    (hs : stepC p s op = some s') : Sync s' ∧ PInv s' := by
+  cases op with
+  | claim v =>
+    simp only [stepC] at hs
+    split at hs
+    · cases hs
+    · rename_i hc
+      cases hs
+      refine ⟨sync_congr s _ h rfl rfl rfl rfl, ⟨hp.out, ?_⟩⟩
+      intro w hw
+      by_cases e : w = v
+      · subst e; simpa using hc
+      · simp [upd, e] at hw; exact hp.pend w hw
+  | base op =>
+    cases op with
+    | rankReset =>
+      simp only [stepC, Option.some.injEq] at hs
+      subst hs
+      have hall : ∀ v, s.status v = .active := hg
+      have hcl : ∀ v, s.claimed v = true := by
+        intro v
+        cases hc : s.claimed v with
+        | true => rfl
+        | false => have := (hp.out v hc).1; rw [hall v] at this; cases this
+      refine ⟨?_, ⟨fun v hv => by simp [hcl v] at hv, fun v hv => by have := hp.pend v hv; simp [hcl v] at this⟩⟩
+      constructor
+      · intro w hw; have := h.r_in w hw; exact absurd (hall w) this.2.2
+      · intro w hw; exact ⟨by simp [hcl w], (h.a_act w hw).2⟩
+      · intro w hr ha; have := h.rest w hr ha; simp [hall w] at this; simp [hcl w]; exact this
+    | msgPause v => exact syncC_sub p s s' (.msgPause v) v rfl h hp hg hs
+    | msgUnpause v => exact syncC_sub p s s' (.msgUnpause v) v rfl h hp hg hs
+    | msgActivate v now => exact syncC_sub p s s' (.msgActivate v now) v rfl h hp hg hs
+    | sig v sg now => exact syncC_sub p s s' (.sig v sg now) v rfl h hp hg hs
+    | jail v now => exact syncC_sub p s s' (.jail v now) v rfl h hp hg hs
+    | unjail v now => exact syncC_sub p s s' (.unjail v now) v rfl h hp hg hs
+    | evidence v now k st => exact syncC_sub p s s' (.evidence v now k st) v rfl h hp hg hs
+    | kPause v => exact syncC_sub p s s' (.kPause v) v rfl h hp hg hs
+
+/-- one pending entry joins: the invariant and the bookkeeping survive -/
+theorem join_one (s : S) (v : Nat) (h : Sync s) (hp : PInv s) : Sync (joinOne s v) ∧ PInv (joinOne s v) := by
+  unfold joinOne
+  by_cases hP : s.P v = true
+  · simp only [hP, if_true]
+    have hc := hp.pend v hP
+    obtain ⟨_, hV, hR, hA⟩ := hp.out v hc
+    refine ⟨sync_congr (promote s v) _ (sync_promote s h v) rfl rfl rfl rfl, ?_⟩
+    constructor
+    · intro w hw
+      by_cases e : w = v
+      · subst e; simp [upd] at hw
+      · simp only [upd, e, if_false] at hw
+        have := hp.out w hw
+        simpa [promote, upd, e] using this
+    · intro w hw
+      by_cases e : w = v
+      · subst e; simp [upd] at hw
+      · simp only [upd, e, if_false] at hw ⊢; exact hp.pend w hw
+  · simp only [hP, Bool.false_eq_true, if_false]; exact ⟨h, hp⟩
+
+theorem join_pending (n : Nat) (s : S) (h : Sync s) (hp : PInv s) : Sync (joinPending n s) ∧ PInv (joinPending n s) := by
+  unfold joinPending
+  generalize List.range n = l
+  induction l generalizing s with
+  | nil => exact ⟨h, hp⟩
+  | cons v l ih =>
+    simp only [List.foldl_cons]
+    obtain ⟨h1, hp1⟩ := join_one s v h hp
+    exact ih (joinOne s v) h1 hp1
+
+/-- a second claim by an account that already has a validator record is refused, whatever key or moniker it names -/
+theorem claim_refused_when_record_exists (p : Params) (s : S) (v : Nat) (hc : s.claimed v = true) :
+    stepC p s (.claim v) = none := by simp [stepC, hc]
+
+/-- **with joining validators**: for every sequence of covered operations inside a block - claims included -, once the
+pending entries have become records the drained queues can be applied by the consensus engine and the new consensus
+set is exactly the set of validators the application records as active (new validators included) -/
+theorem syncC_block (p : Params) (n : Nat) (s : S) (h : Sync s) (hp : PInv s) (ops : List OpC)
+    (hg : ∀ (pre : List OpC) (op : OpC) (post : List OpC), ops = pre ++ op :: post → GoodC p (pre.foldl (applyC p) s) op) :
+    let s' := joinPending n (ops.foldl (applyC p) s)
+    applicable s' ∧ (∀ v, drainV s' v = true ↔ s'.status v = .active) ∧ PInv s' := by
+  have key : Sync (ops.foldl (applyC p) s) ∧ PInv (ops.foldl (applyC p) s) := by
+    induction ops generalizing s with
+    | nil => exact ⟨h, hp⟩
+    | cons op rest ih =>
+      have h1 : Sync (applyC p s op) ∧ PInv (applyC p s op) := by
+        unfold applyC
+        cases hs : stepC p s op with
+        | none => simpa using ⟨h, hp⟩
+        | some s' => simpa using syncC_step p s s' op h hp (hg [] op rest rfl) hs
+      apply ih (applyC p s op) h1.1 h1.2
+      intro pre o post e
+      have := hg (op :: pre) o post (by simp [e])
+      simpa using this
+  obtain ⟨k1, k2⟩ := join_pending n _ key.1 key.2
+  exact ⟨sync_applicable _ k1, drain_iff _ k1, k2⟩
+
+/-! non-vacuity: three validators in the set, accounts 3 and 4 without a record -/
+def s3c : S := { V := fun v => decide (v < 3), claimed := fun v => decide (v < 3),
+                 status := fun v => if v < 3 then .active else .inactive }
+
+example : Sync s3c ∧ PInv s3c := by
+  refine ⟨⟨fun v hv => by simp [s3c] at hv, fun v hv => by simp [s3c] at hv, fun v _ _ => ?_⟩, ⟨fun v hv => ?_, fun v hv => by simp [s3c] at hv⟩⟩
+  · by_cases hv : v < 3 <;> simp [s3c, hv]
+  · have hv : ¬ v < 3 := by simpa [s3c] using hv
+    simp [s3c, hv]
+
+example : (endBlockC 5 ([OpC.claim 3, .base (.msgPause 0), .claim 4].foldl (applyC pr) s3c)).1 = [(0, 0), (3, 1), (4, 1)] := by decide
+example : endOk 5 (joinPending 5 ([OpC.claim 3, .base (.msgPause 0)].foldl (applyC pr) s3c)) = true := by decide
+/-- a message about the pending validator fails until the block ends; afterwards it is an ordinary active validator -/
+example : stepC pr ([OpC.claim 3].foldl (applyC pr) s3c) (.base (.msgPause 3)) = none := by decide
+example : stepC pr s3c (.claim 1) = none := by decide
+
 /-! ### Application wiring (table `Gen.App`) -/
 
 /-- the block structure of `Stake.block`: in BeginBlock signatures (slashing) are handled before evidence, both before
